@@ -228,8 +228,11 @@ class Interp:
             for n in ast.walk(f.node):
                 if isinstance(n, ast.Assign):
                     for t in n.targets:
-                        if isinstance(t, ast.Attribute) and t.attr == "state" and isinstance(n.value, ast.Attribute):
-                            vals.add(n.value.attr)
+                        if isinstance(t, ast.Attribute) and t.attr == "state":
+                            arms = [n.value.body, n.value.orelse] if isinstance(n.value, ast.IfExp) else [n.value]
+                            for v in arms:
+                                if isinstance(v, ast.Attribute):
+                                    vals.add(v.attr)
         self.state_values = vals
         return p
 
